@@ -126,7 +126,8 @@ def gen_index(rng):
         return ["neglen", rng.choice([-2, -1, 0, 1])]
     return rng.choice([0, 1, -1, -2, 5, 9, 10, 11, -10, -11,
                        rng.randrange(-50, 50), rng.randrange(-50, 50),
-                       10 ** 18, -10 ** 18, 2 ** 70, -2 ** 70])
+                       10 ** 18, -10 ** 18, 2 ** 70, -2 ** 70,
+                       2 ** 63 - 1, 2 ** 63 - 6])
 
 
 def gen_bound(rng):
@@ -143,7 +144,8 @@ def gen_query(rng):
         return ["getitem", gen_index(rng)]
     if k == "slice":
         return ["slice", gen_bound(rng), gen_bound(rng),
-                rng.choice([None, None, 1, 2, 3, 7, -1, -2, -3, 0, 2 ** 70])]
+                rng.choice([None, None, 1, 2, 3, 7, -1, -2, -3, 0, 2 ** 70,
+                            2 ** 63 - 1, 2 ** 63 - 6])]
     if k == "contains":
         return ["contains", RL.gen_ref(rng)]
     if k in ("before", "after"):
